@@ -12,6 +12,7 @@ MaskFun(f) == [f EXCEPT !.declared_ret = <<>>]
 MaskEv(e) ==
   CASE e.ev = "VarDecl" -> [e EXCEPT !.vt = <<>>]
     [] e.ev = "Exit" /\ e.kind = "Fun" -> [e EXCEPT !.sig = MaskFun(@)]
+    [] e.ev = "Enter" /\ e.kind = "Fun" -> [e EXCEPT !.noret = TRUE]          \* (the same annotation, as seen when the function is entered)
     [] e.ev = "New" -> [e EXCEPT !.infer = TRUE]
     [] e.ev = "Call" -> [e EXCEPT !.infer = TRUE]
     [] OTHER -> e
@@ -24,6 +25,7 @@ OnlyRemoved(b, a) ==
   CASE b.ev = "VarDecl" -> a.vt \in {b.vt, <<>>}
     [] b.ev = "Exit" /\ b.kind = "Fun" -> a.sig.declared_ret \in {b.sig.declared_ret, <<>>}
     [] b.ev \in {"New", "Call"} -> (b.infer => a.infer)
+    [] b.ev = "Enter" /\ b.kind = "Fun" -> (b.noret => a.noret)
     [] OTHER -> TRUE
 
 EraseFrameBad(before, after) ==
